@@ -62,6 +62,15 @@ CASES = [
     ("in_list.two", "('xs', ListValue())", "Value.in_([DataPath('ref'), DataPath('lo'), 5])", f"Value.in_([{lit(P_REF)}, {lit(P_LO)}, 5])", []),
     ("in_kwargs", "('m',)", "Value.items_contain(k=DataPath('ref'), j=2)", f"Value.items_contain(k={lit(P_REF)}, j=2)", []),
     ("in_map_arg", "('m',)", "Value.equal_to({'k': DataPath('ref'), 'j': 2})", f"Value.equal_to({{'k': {lit(P_REF)}, 'j': 2}})", []),
+    # the root (empty) path as an argument, with modifiers; alone, next to another path, inside list / mapping arguments
+    ("root.length", "('n',)", "Value.equal_to(DataPath().length())", "Value.equal_to(ref_get((), doc, 'length'))", []),
+    ("root.map_keys", "('w',)", "Value.in_(DataPath().map_keys())", "Value.in_(ref_get((), doc, 'map_keys'))", []),
+    ("root.not_in_keys", "('x',)", "Value.not_in(DataPath().map_keys())", "Value.not_in(ref_get((), doc, 'map_keys'))", []),
+    ("root.dtype", "('m',)", "Value.dtype.equal_to(DataPath().dtype())", "Value.dtype.equal_to(dict)", []),
+    ("root.in_list", "('n',)", "Value.in_([DataPath().length(), t])", "Value.in_([ref_get((), doc, 'length'), t])", [("t", "int")]),
+    ("root.in_kwargs", "('m',)", "Value.items_contain(j=DataPath('n'), k=DataPath().length())", f"Value.items_contain(j={lit(P_N)}, k=ref_get((), doc, 'length'))", []),
+    ("root.next_to_path", "('x',)", "Value.in_range(DataPath('lo'), DataPath().length())", f"Value.in_range({lit(P_LO)}, ref_get((), doc, 'length'))", [], "0 <= 9 - u2 <= 3"),
+    ("root.in_tree", "('x',)", "Value.less_than(DataPath().length()) | Value.equal_to(DataPath('ref'))", f"Value.less_than(ref_get((), doc, 'length')) | Value.equal_to({lit(P_REF)})", []),
     ("combined", "('x',)", "Value.greater_than(DataPath('lo')) & (Value.less_than(DataPath('hi')) | Value.equal_to(DataPath('ref')))",
      f"Value.greater_than({lit(P_LO)}) & (Value.less_than({lit(P_HI)}) | Value.equal_to({lit(P_REF)}))", []),
 ]
@@ -77,6 +86,12 @@ SPEC_CASES = [
     ("spec.escaped.multi_key.last", "('q',)", "{'value.equal_to': {'kind': 'file', '\\\\path': ['ref']}}", "Value.equal_to({'kind': 'file', 'path': ['ref']})", []),
     ("spec.escaped.multi_key.first", "('q',)", "{'value.equal_to': {'\\\\path': ['ref'], 'kind': 'file'}}", "Value.equal_to({'path': ['ref'], 'kind': 'file'})", []),
     ("spec.escaped.multi_key.in_kwargs", "('m2',)", "{'value.items_contain': {'k': {'kind': 'file', '\\\\path.length': ['ref']}}}", "Value.items_contain(k={'kind': 'file', 'path.length': ['ref']})", []),
+    ("spec.root.length", "('n',)", "{'value.equal_to': {'path.length': []}}", "Value.equal_to(ref_get((), doc, 'length'))", []),
+    ("spec.escaped.nonstr_key_first", "('q2',)", "{'value.equal_to': {0: 'x', '\\path': ['ref']}}", "Value.equal_to({0: 'x', 'path': ['ref']})", []),
+    ("spec.escaped.none_key_first", "('q3',)", "{'value.equal_to': {None: 1, '\\path.length': ['ref']}}", "Value.equal_to({None: 1, 'path.length': ['ref']})", []),
+    ("spec.escaped.nonstr_key_first.miss", "('q4',)", "{'value.equal_to': {0: 'x', '\\path': ['ref']}}", "Value.equal_to({0: 'x', 'path': ['ref']})", []),
+    ("spec.escaped.nonstr_key_first.in_list", "('q2',)", "{'value.in': [{0: 'x', '\\path': ['ref']}, t]}", "Value.in_([{0: 'x', 'path': ['ref']}, t])", [("t", "int")]),
+    ("spec.escaped.nonstr_key_first.in_kwargs", "('m3',)", "{'value.items_contain': {'k': {1.5: 0, '\\path': ['ref']}}}", "Value.items_contain(k={1.5: 0, 'path': ['ref']})", []),
     ("spec.escaped.hit", "('p',)", "{'value.equal_to': {'\\\\path': ['ref']}}", "Value.equal_to({'path': ['ref']})", []),
 ]
 
@@ -117,7 +132,7 @@ return ok
             heavy = "ListValue()" in rpath or "list_value" in rpath
             params = list(extra) + [("r1", "int" if heavy or cid == "combined" else U), ("u1", "int" if cid == "combined" else U), ("u2", "int")]
             names = ", ".join(p[0] for p in params)
-            doc = DOC if not cid.startswith("spec.escaped") else DOC[:-1] + ", 'p': {'path': ['ref']}, 'q': {'kind': 'file', 'path': ['ref']}, 'm2': {'k': {'kind': 'file', 'path.length': ['ref']}}}"
+            doc = DOC if not cid.startswith("spec.escaped") else DOC[:-1] + ", 'p': {'path': ['ref']}, 'q': {'kind': 'file', 'path': ['ref']}, 'm2': {'k': {'kind': 'file', 'path.length': ['ref']}}, 'q2': {0: 'x', 'path': ['ref']}, 'q3': {None: 1, 'path.length': ['ref']}, 'q4': {0: 'x', '\\\\path': ['ref']}, 'm3': {'k': {1.5: 0, 'path': ['ref']}}}"
             path_src = f"DataPath.from_part_specs(*{rpath})"
             cond_src = cond if kind == "api" else f"ConditionLike.from_spec({cond})"
             body = f"""
